@@ -101,6 +101,7 @@ def gen_cases(tier):
         cases.append({"d": i, "ctx": "alone"})
         cases.append({"d": i, "ctx": "before-table"})
         cases.append({"d": i, "ctx": "after-table"})
+        cases.append({"d": i, "ctx": "pair"})
         if d.get("use") and not any(d["use"] == k or d["use"].endswith("." + k) for k in KWNAMES):
             cases.append({"d": i, "ctx": "used"})
     return cases
@@ -109,10 +110,21 @@ def gen_cases(tier):
 OTHER = "CREATE TABLE other_t (k int, type int, domain int, schema int);"
 
 
+def partner(i):
+    """the neighbouring declaration of the same kind (two declarations of one kind in one script must not share anything)"""
+    ds = D()
+    for j in (i + 1, i - 1, i + 2, i - 2):
+        if 0 <= j < len(ds) and ds[j]["kind"] == ds[i]["kind"] and ds[j]["ddl"] != ds[i]["ddl"]:
+            return j
+    return i
+
+
 def build(case):
     d = D()[case["d"]]
     if case["ctx"] == "alone":
         return d["ddl"]
+    if case["ctx"] == "pair":
+        return d["ddl"] + "\n" + D()[partner(case["d"])]["ddl"]
     if case["ctx"] == "before-table":
         return d["ddl"] + "\n" + OTHER
     if case["ctx"] == "after-table":
@@ -142,6 +154,16 @@ def evaluate(case):
     res = r[1]
     n_exp = 1 if case["ctx"] == "alone" else 2
     idx = 1 if case["ctx"] == "after-table" else 0
+    if case["ctx"] == "pair":
+        # judged only when both declarations are fine alone (their own defects are reported by the 'alone' cases)
+        d2 = D()[partner(case["d"])]
+        solo = [run_ddl(x["ddl"]) for x in (d, d2)]
+        if any(s_[0] != "ok" or len(s_[1]) != 1 for s_ in solo):
+            return {"diffs": [], "skipped": True}
+        want = [solo[0][1][0], solo[1][1][0]]
+        if res != want:
+            diffs.append(diff("two %s declarations in one script" % d["kind"], "pair-differs-from-stand-alone", short(want, 300), short(res, 300)))
+        return {"diffs": diffs, "nontrivial": True, "outcome": d["kind"] + ":pair"}
     if len(res) != n_exp:
         return {"diffs": [diff("entities", "entity-count", n_exp, short(res, 240))], "nontrivial": True, "outcome": "count"}
     e = res[idx]
